@@ -396,9 +396,9 @@ func c08Overlap(c *fw.Ctx, idx int) {
 
 func init() {
 	fw.Register(&fw.Monitor{
-		ID:    "C08",
-		Title: "bounds are the tight per-dimension box for every geometry and layout mix",
-		Rule: "Bounds() of generated geometries (7 types x NoLayout..Layout(8), no NaN, +-Inf and -0 included) and of collections nested to depth 4 with mixed member layouts compared with the model's min/max by semantic dimension (X, Y, Z via ZIndex, M via MIndex) using ==; coordinate-free geometries must be empty; Extend histories of 1..6 geometries over XY/XYZ/XYM/XYZM from a NoLayout/XY/XYZ/XYM start in every permutation (n<=5) must all give the model's layout and intervals; Overlaps/OverlapsPoint on a 0..4 grid incl. touching, degenerate and empty boxes vs closed-interval arithmetic; Bounds.Polygon(). distinct_nontrivial = distinct (shape signature, depth) / layout sequences / box pairs",
+		ID:     "C08",
+		Title:  "bounds are the tight per-dimension box for every geometry and layout mix",
+		Rule:   "Bounds() of generated geometries (7 types x NoLayout..Layout(8), no NaN, +-Inf and -0 included) and of collections nested to depth 4 with mixed member layouts compared with the model's min/max by semantic dimension (X, Y, Z via ZIndex, M via MIndex) using ==; coordinate-free geometries must be empty; Extend histories of 1..6 geometries over XY/XYZ/XYM/XYZM from a NoLayout/XY/XYZ/XYM start in every permutation (n<=5) must all give the model's layout and intervals; Overlaps/OverlapsPoint on a 0..4 grid incl. touching, degenerate and empty boxes vs closed-interval arithmetic; Bounds.Polygon(). distinct_nontrivial = distinct (shape signature, depth) / layout sequences / box pairs",
 		Assume: []string{"min and max are exact operations, so no tolerance is used"},
 		Classes: []fw.Class{
 			{Name: "geometries", Quick: 60000, Thorough: 3000000, Run: c08Geoms},
